@@ -1943,9 +1943,23 @@ pub(crate) mod convert {
             deps: &mut Vec<UnitSectionOffset>,
             offset: LocationListsOffset,
         ) -> ConvertResult<()> {
-            let mut locations = self.read_unit.locations(offset)?;
+            // Use the raw entries because the conversion also converts the expressions of
+            // entries that the cooked iterator skips (tombstones and empty ranges).
+            let mut locations = self.read_unit.raw_locations(offset)?;
             while let Some(location) = locations.next()? {
-                self.add_expression_refs(deps, location.data)?;
+                match location {
+                    read::RawLocListEntry::BaseAddress { .. }
+                    | read::RawLocListEntry::BaseAddressx { .. } => {}
+                    read::RawLocListEntry::AddressOrOffsetPair { data, .. }
+                    | read::RawLocListEntry::StartxEndx { data, .. }
+                    | read::RawLocListEntry::StartxLength { data, .. }
+                    | read::RawLocListEntry::OffsetPair { data, .. }
+                    | read::RawLocListEntry::DefaultLocation { data }
+                    | read::RawLocListEntry::StartEnd { data, .. }
+                    | read::RawLocListEntry::StartLength { data, .. } => {
+                        self.add_expression_refs(deps, data)?;
+                    }
+                }
             }
             Ok(())
         }
